@@ -86,8 +86,8 @@ Definition clamp0 (x : Q) : Q := if Qle_bool 0 x then x else 0.
 Definition quick_step (t : list Q) (column : list Q) : list Q * list Q :=
   let ens := zipw Qmult column t in
   let s := qsuml ens in
-  let ens' := if Qeq_bool s 0 then ens else map (fun x => x / s) ens in
-  (ens', map clamp0 (zipw Qminus t ens')).
+  let ens' := if Qeq_bool s 0 then ens else map (fun x => Qred (x / s)) ens in
+  (ens', map clamp0 (zipw (fun a b => Qred (a - b)) t ens')).
 
 (* columns in processing order (last column first); returns the ens vectors in that order *)
 Fixpoint quick_loop (t : list Q) (cols : list (list Q)) : list (list Q) :=
